@@ -1,5 +1,5 @@
 (* Test-case dispatch for model R (run-time model). Opcodes 100-199. *)
-From AJ Require Import Common.Util Extract.Codec Run.RModel.
+From AJ Require Import Common.Util Extract.Codec Run.RModel Run.RMon Run.RProps1.
 
 Definition rd_optN : reader (option N) := rd_opt rd_N.
 
@@ -74,10 +74,19 @@ Definition replay (lvl : nat) (c : cfg) (h : list event) : list N :=
   | Some (i, code) => [0%N; N.of_nat i; N.of_nat code; 0%N]
   end.
 
+(* registered monitors: (property number * 10 + part, check) *)
+Definition monitors : list (nat * (cfg -> state -> event -> bool)) :=
+  [(10, chk01); (20, chk02a); (140, chk14)].
+
 Definition run_rcase (op : N) : reader (list N) :=
   match op with
   | 100%N => (* acceptance at the four levels *)
       c <- rd_cfg ;; h <- rd_list rd_event ;;
       ret (en_bool (wf c) ++ replay 0 c h ++ replay 1 c h ++ replay 2 c h ++ replay 3 c h)
+  | 101%N => (* monitors: for each, 0 = passes, S i = fails at event i *)
+      c <- rd_cfg ;; h <- rd_list rd_event ;;
+      ret (flat_map (fun m => [N.of_nat (fst m);
+                               match mon (snd m) c init h 0 with None => 0%N | Some i => N.of_nat (S i) end])
+                    monitors)
   | _ => fun _ => None
   end.
